@@ -18,8 +18,23 @@ VERIF = os.path.dirname(os.path.dirname(os.path.abspath(__file__)))
 REPO = os.environ.get("VERIF_REPO", "/repo")
 SPEC = os.path.join(VERIF, "spec")
 HARNESS = os.path.join(VERIF, "harness")
-EVIDENCE = os.path.join(VERIF, "evidence")
-REPLAYS = os.path.join(VERIF, "replays")
+ALT = None
+if os.path.realpath(REPO) != "/repo":
+    # VERIF_REPO=<another checkout> (a `vp run --with-repo` snapshot, a scratch worktree with a seeded change): the harness module
+    # names /repo in its replace directive, so build from a private copy of it that names the other checkout, and keep that
+    # checkout's generated corpus apart from the cache of /repo's
+    import atexit
+    ALT = tempfile.mkdtemp(prefix="verif-alt-")
+    atexit.register(shutil.rmtree, ALT, True)
+    shutil.copytree(HARNESS, os.path.join(ALT, "harness"))
+    HARNESS = os.path.join(ALT, "harness")
+    with open(os.path.join(HARNESS, "go.mod")) as _f:
+        _gm = _f.read()
+    with open(os.path.join(HARNESS, "go.mod"), "w") as _f:
+        _f.write(_gm.replace("=> /repo", "=> " + os.path.realpath(REPO)))
+    os.environ.setdefault("VERIF_CACHE", os.path.join(ALT, "cache"))
+EVIDENCE = os.environ.get("VERIF_EVIDENCE") or os.path.join(VERIF, "evidence")
+REPLAYS = os.environ.get("VERIF_REPLAYS") or os.path.join(VERIF, "replays")
 NCPU = os.cpu_count() or 4
 # VERIF_COVER=<dir>: build every harness / tool binary with -cover over the csproto packages and collect the counters there
 # (bin/cover reports which csproto functions the conformance runs actually execute)
@@ -246,6 +261,14 @@ class Verdicts:
         self.known_hits = {}      # finding id -> count
         self.inconclusive = []
         self.by_sig = {}          # signature -> [sig, replay path, count]
+        # replay files of earlier runs of this property are stale once a new run starts
+        if os.path.isdir(REPLAYS) and "--replay" not in sys.argv:
+            for f in os.listdir(REPLAYS):
+                if f.startswith(prop + "-") and f.endswith(".json"):
+                    try:
+                        os.remove(os.path.join(REPLAYS, f))
+                    except OSError:
+                        pass
 
     def fail(self, sig, replay_payload, name):
         k = match_known(self.prop, sig, self.known)
